@@ -476,7 +476,7 @@ class LocksEngine:
                 pol[r["a"] + "." + r["b"]] = pol.get(r["a"] + "." + r["b"], 0) + 1
             cov = {
                 "obligations": n_stmt + (n_rows - n_known_rows) + 5,
-                "discharged": (n_qed if proof_ok else 0) + (n_rows - n_bad) + (5 if A.get("instance_ok") else 0),
+                "discharged": (n_stmt if proof_ok else 0) + (n_rows - n_bad) + (5 if A.get("instance_ok") else 0),
                 "checker_cmd": "tools/lockfacts -repo $REPO -out gen ; coqc -Q coq GV gen/LockFacts.v gen/Instance.v (vm_compute) ; "
                                "coqc Locks/Props_C10.v (Print Assumptions)",
                 "trusted_base": TRUSTED,
